@@ -1,0 +1,16 @@
+//go:build verif
+
+// Contracts for the deductive checker in /verif (comment-only).
+
+package rewriter
+
+// ---------------------------------------------------------------- rewriter.go (C04)
+// rwSpec is the documented meaning of one rule: skipped when its not-clause matches, regex rules
+// replace every match, literal rules replace the first Max occurrences (-1 = all).
+//@ spec rwSkip(r RW, b bytes) bool := r.notRe != nil ? reMatch(r.notRe.src, b) : (len(r.not) > 0 && contains(b, r.not[..]))
+//@ spec rwSpec(r RW, b bytes) bytes := rwSkip(r, b) ? b : (r.re != nil ? reReplaceAll(r.re.src, b, r.new[..]) : replaceN(b, r.old[..], r.new[..], r.Max))
+//@
+//@ func (r RW) Do(buf []byte) []byte
+//@   property C04
+//@   ensures[rewrite] result[..] == rwSpec(r, buf[..])
+//@   ensures[alias]   result == buf || fresh(result)
